@@ -14,7 +14,12 @@ import Driver.Util
       L,T      0/1 isLocal, isTarget     commit, ctime  Nat     name  `_` | Nat
       paths / excludes   `_` | hex,hex…  (targetPaths / targetExcludePaths)
       protofile          `_` | hex | hex+ (with includePackageFiles)
-      files    `_` | file|file…   file = hexpath>hexpkg>syntaxflag(>import)*  import = [!]hex  (! = unused)
+      files    `_` | file|file…   file = hexpath>hexpkg>syntaxflag(>import)*  import = [!][^|~]hex
+               ! = unused (compiler verdict, C01 only); the import MODIFIER as fastscan reports it:
+               ^ = `import public`, ~ = `import weak`, none = plain.  Every import statement is
+               listed.  The file is parsed into a `KFile` (import STATEMENTS: path + modifier) and handed to
+               the model through `KFile.scan`, the model of the loop over fastscan's result: every
+               statement counts, whatever its modifier (BufProofs.C10 `ik_*`).
 
   A workspace read from disk with its buf.lock files keeps the structure the add order is derived
   from (BufModel.Graph.v1Adds / v2Adds):
@@ -44,7 +49,8 @@ def l2s (l : List Char) : String := String.ofList l
 def wkt : List PFile := BufGen.wktTable.map (fun x => { path := s2l x.1, imports := x.2.map s2l })
 
 structure XFile where
-  f : PFile
+  f : PFile                 -- = kf.scan
+  kf : KFile                -- the import statements with their modifiers
   unused : List Str
   noSyntax : Bool
 
@@ -57,15 +63,26 @@ def hexL (s : String) : Option Str := (hexDecode s).map s2l
 
 def parseList (s : String) (sep : String) : List String := if s = "_" then [] else s.splitOn sep
 
+/-- `[!][^|~]hex` → (path, unused, modifier). -/
+def parseImport (i : String) : Option (Str × Bool × ImpKind) :=
+  let (unused, r) := match i.toList with
+    | '!' :: r => (true, r)
+    | r => (false, r)
+  let (kind, r) := match r with
+    | '^' :: r => (ImpKind.pub, r)
+    | '~' :: r => (ImpKind.weak, r)
+    | r => (ImpKind.plain, r)
+  (hexL (String.ofList r)).map (fun x => (x, unused, kind))
+
 def parseFile (s : String) : Option XFile :=
   match s.splitOn ">" with
   | p :: pkg :: syn :: imps => do
     let p ← hexL p
     let pkg ← hexL pkg
-    let imps ← imps.mapM (fun i =>
-      if i.startsWith "!" then (hexL (String.ofList (i.toList.drop 1))).map (fun x => (x, true)) else (hexL i).map (fun x => (x, false)))
-    some { f := { path := p, imports := imps.map (·.1), pkg := pkg },
-           unused := (imps.filter (·.2)).map (·.1), noSyntax := syn = "1" }
+    let imps ← imps.mapM parseImport
+    let kf : KFile := { path := p, stmts := imps.map (fun x => (x.1, x.2.2)), pkg := pkg }
+    some { f := kf.scan, kf := kf,
+           unused := (imps.filter (·.2.1)).map (·.1), noSyntax := syn = "1" }
   | _ => none
 
 def parseAdded (idx : Nat) (s : String) : Option XAdded :=
